@@ -55,8 +55,8 @@ def run(ctx):
     ctx.rule = ("cases = (i) every API call of the client menu (9 key kinds x lifetime/confirm/extension constraints, sign flags, "
                 "lock/unlock/remove/list/extension) with its TLC-computed frame, each on the serialised and the pipelined client; "
                 "(ii) every (call kind, scripted reply) pair of the reply menu with the TLC-computed outcome; (iii) server sessions: one "
-                "shortest witness session of raw frames per (agent state, ended?, last frame) transition of AgentWireSrv plus all sessions "
-                "of length <= 2, with the TLC-computed reply octets; (iv) recorded executions of seeded concurrent drivers "
+                "shortest witness session of raw frames per (agent state, ended?, last frame) transition of AgentWireSrv (thorough: plus all "
+                "sessions of length <= 2), with the TLC-computed reply octets; (iv) recorded executions of seeded concurrent drivers "
                 "(real goroutines, -race) over serialised / pipelined / raw / direct connections sharing one keyring, and of two "
                 "simultaneously forwarded auth-agent@openssh.com channels over a real ssh connection, validated by AgentWire_Trace; "
                 "distinct = distinct (call, mode) / (call kind, reply, mode) / frame-name sequences / recorded executions")
@@ -91,6 +91,8 @@ def run(ctx):
         pipes.append(("rec", lambda: _recorded(ctx, want)))
     if want("cli") or want("srv"):
         pipes.append(("keys", lambda: _go(ctx, "TestKeysModule", timeout=600)))
+    if want("desync"):
+        pipes.append(("desync", lambda: _desync(ctx)))
     _parallel(pipes)
     ctx.exhaustive = False
 
@@ -100,21 +102,37 @@ def _go(ctx, test, **kw):
     sub = vlib.Ctx(ctx.pid, ctx.tier, ctx.seed)
     try:
         res = sub.go_test("x06", test, **kw)
-        ctx.extra.setdefault("go_runs", []).extend(sub.extra.get("go_runs", []))
+        runs = sub.extra.get("go_runs", [])
+        ctx.extra.setdefault("go_runs", []).extend(runs)
+        res["_rc"] = runs[-1]["rc"] if runs else 0
         return res
     finally:
         sub.cleanup()
 
 
+def _desync(ctx):
+    """W1 under one transient Read error of the client's transport (finding X06-D1 on the serialised client)"""
+    doc = ctx.tlc("AgentWire_MC", cfg="AgentWire_DocDesync.cfg", workers=1, timeout=900, count=False, expect_violation=True,
+                  note="serialised client without terminal error under a transient Read fault: documents X06-D1 (must violate OwnReply)")
+    if doc.violated != "OwnReply":
+        raise vlib.Infra("AgentWire_DocDesync: expected the OwnReply counterexample of finding X06-D1, got %r" % doc.violated)
+    ctx.absorb(_go(ctx, "TestDesync$", timeout=600, allow_fail=True))
+
+
 def _model_check(ctx, q):
     jobs = []
-    mcs = ["MCq"] if q else ["MCt1", "MCt2", "MCt3", "MCt4", "MCt5"]
+    mcs = ["MCq"] if q else ["MCt1", "MCt2", "MCt3", "MCt4", "MCt5", "MCt6"]
     for m in mcs:
         jobs.append(("mc:" + m, lambda m=m: ctx.tlc_must_hold("AgentWire_MC", cfg="AgentWire_%s.cfg" % m, workers=ctx.pick(4, 6),
                                                               timeout=3000, note="W1..W5 on the concurrent wire model")))
     jobs.append(("mc:Live", lambda: ctx.tlc_must_hold("AgentWire_MC", cfg="AgentWire_Live.cfg", workers=2, timeout=1500,
                                                      note="W6 Progress under fairness")))
+    if not q:
+        jobs.append(("mc:Faults", lambda: ctx.tlc_must_hold("AgentWire_MC", cfg="AgentWire_Faults.cfg", workers=4, timeout=3000,
+                                                           note="W1..W5 with a transient Read fault and terminal client errors (the repair of X06-D1)")))
     wrong = {"MutNoMutex": "OwnReply", "MutLateEnqueue": "OwnReply", "MutContinue": "OwnReply", "MutUnknownKills": "EndsOnlyByBadFrame"}
+    if q:                      # one JVM start per variant: the quick tier keeps two
+        wrong = {k: wrong[k] for k in ("MutNoMutex", "MutContinue")}
     for m in wrong:
         jobs.append(("mut:" + m, lambda m=m: ctx.tlc("AgentWire_MC", cfg="AgentWire_%s.cfg" % m, workers=1, timeout=900, count=False,
                                                    expect_violation=True, note="deliberately wrong variant: must violate")))
@@ -137,33 +155,47 @@ def _client(ctx):
     ctx.absorb(_go(ctx, "TestClient", cases=tr, timeout=1500))
 
 
+SRV_PAIRS_Q = [("ed1", "rsa1c")]
+SRV_PAIRS_T = [("ed1", "rsa1c"), ("ed2", "dsa1c"), ("ec1", "rsa1"), ("dsa1", "ec1c"), ("ed1c", "ed2")]
+
+
 def _server(ctx):
-    res = _parallel([
-        ("w", lambda: ctx.tlc_must_hold("AgentWireSrv", cfg=ctx.pick("AgentWireSrv_GenQ.cfg", "AgentWireSrv_GenT.cfg"),
-                                        workers=ctx.pick(4, 8), timeout=3000, heap="6g", note="server sessions: one witness per transition")),
-        ("a", lambda: ctx.tlc_must_hold("AgentWireSrv", cfg="AgentWireSrv_GenAll2.cfg", workers=ctx.pick(2, 4), timeout=3000,
-                                        heap="6g", note="server sessions: all of length <= 2"))])
-    tab = [t for t in res["w"].traces if "table" in t]
-    sess, seen = [], set()
-    for k in ("w", "a"):
+    base = _cfg("AgentWireSrv_GenQ.cfg")
+    gens = []
+    for pair in (SRV_PAIRS_T if ctx.thorough else SRV_PAIRS_Q):
+        txt = re.sub(r"GenKeys = .*", 'GenKeys = {"%s", "%s"}' % pair, base)
+        gens.append(("w:%s+%s" % pair, lambda txt=txt, pair=pair: ctx.tlc_must_hold(
+            "AgentWireSrv", cfg_text=txt, workers=4, timeout=3000, heap="6g",
+            note="server sessions over keys %s, %s: one witness per (agent state, last frame) transition" % pair)))
+    if ctx.thorough:
+        gens.append(("all2", lambda: ctx.tlc_must_hold("AgentWireSrv", cfg="AgentWireSrv_GenAll2.cfg", workers=4, timeout=3000,
+                                                       heap="6g", note="server sessions: all of length <= 2")))
+    res = _parallel(gens)
+    tabs, sess, seen = {}, [], set()
+    for k in sorted(res):
         for t in res[k].traces:
             if "table" in t:
+                # one menu per key pair: merge the tables (frames and identity entries are keyed by name)
+                tabs.setdefault("table", {}).update({m["name"]: m for m in t["table"]})
+                tabs.setdefault("entries", {}).update({e["name"]: e for e in t["entries"]})
+                tabs["maxmsg"] = t["maxmsg"]
                 continue
             key = ",".join(t["inp"])
             if key and key not in seen:
                 seen.add(key); sess.append(t)
-    if len(tab) != 1 or len(sess) < 100:
-        raise vlib.Infra("server generator: expected a table and > 100 sessions, got %d / %d" % (len(tab), len(sess)))
+    if not tabs or len(sess) < 100:
+        raise vlib.Infra("server generator: expected a table and > 100 sessions, got %d sessions" % len(sess))
+    tab = {"table": list(tabs["table"].values()), "entries": list(tabs["entries"].values()), "maxmsg": tabs["maxmsg"]}
     ctx.log("server sessions: %d" % len(sess))
-    ctx.absorb(_go(ctx, "TestServer", cases=tab + sess, timeout=2400))
+    ctx.absorb(_go(ctx, "TestServer", cases=[tab] + sess, timeout=2400))
 
 
 def _recorded(ctx, want):
     tjobs = []
     if want("trace"):
-        tjobs.append(("conc", lambda: _record(ctx, "TestConcurrent", ctx.pick(30, 1000))))
+        tjobs.append(("conc", lambda: _record(ctx, "TestConcurrent", ctx.pick(24, 600))))
     if want("forward"):
-        tjobs.append(("fwd", lambda: _record(ctx, "TestForward", ctx.pick(4, 120))))
+        tjobs.append(("fwd", lambda: _record(ctx, "TestForward", ctx.pick(3, 120))))
     tres = _parallel(tjobs)
     traces = []
     for k in ("conc", "fwd"):
@@ -199,6 +231,8 @@ def _record(ctx, test, rounds):
                                   {"report": blk[:6000]})
                 else:
                     raise vlib.Infra("data race outside ssh/agent during %s (harness defect?):\n%s" % (test, blk[:3000]))
+    if res["_rc"] != 0 and not res.get("violations") and not ctx.violations:
+        raise vlib.Infra("%s failed without recording a violation (rc=%d):\n%s" % (test, res["_rc"], res.get("_stdout", "")[-3000:]))
     traces = []
     if os.path.exists(path):
         for line in open(path):
@@ -212,7 +246,7 @@ def _record(ctx, test, rounds):
 
 def _validate(ctx, traces):
     """validate recorded executions in parallel batches (one JVM each)"""
-    nb = max(1, min(ctx.pick(3, 8), len(traces) // 10))
+    nb = max(1, min(ctx.pick(2, 8), len(traces) // 10))
     batches = [traces[i::nb] for i in range(nb)]
     lock = threading.Lock()
 
